@@ -1,4 +1,5 @@
 import Pds.Props.C14
+import Pds.Model.Quotient
 /-!
 # C12 — failed cuckoo-filter operations leave the filter unchanged
 
@@ -104,5 +105,40 @@ example : view (run rngX hashX 500 emptyX
 
 /-- the operand of these unions satisfies the side condition of the theorems -/
 example : (3 : Nat) = card (abs hashX (⟨2, 2, 8, #[3, 6, 5, 0], 3, 0⟩ : St Nat)) := by decide
+
+/-- Quotient filter: an `insert` that reports `Full` returns exactly the state it was given
+(the capacity test precedes every write), for every table, quotient and remainder. -/
+theorem quotient_insert_full_unchanged {N : Nat} (t t' : Pds.Quotient.St N) (a : Fin N) (r : Nat)
+    (h : Pds.Quotient.insertInternal t a r = some (t', .full)) : t' = t := by
+  unfold Pds.Quotient.insertInternal at h
+  split at h
+  · cases h
+  · split at h
+    · cases h
+    · split at h
+      · cases h; rfl
+      · simp only at h
+        split at h
+        · cases h
+        · cases h
+
+/-- Quotient filter: a `union` that reports `Full` (at whichever transferred fingerprint) returns
+exactly the receiver it was given — the complete backup is restored. -/
+theorem quotient_union_full_unchanged {N : Nat} (t o t' : Pds.Quotient.St N)
+    (h : Pds.Quotient.union t o = some (t', .full)) : t' = t := by
+  unfold Pds.Quotient.union at h
+  split at h
+  · cases h
+  · cases h; rfl
+  · cases h
+
+/-- Quotient filter, public level: `insert` of an element hash that reports `Full` leaves the state unchanged. -/
+theorem quotient_insert_hash_full_unchanged {N : Nat} (q r : Nat) (t t' : Pds.Quotient.St N) (fp : Nat)
+    (h : Pds.Quotient.insert q r t fp = some (t', .full)) : t' = t := by
+  unfold Pds.Quotient.insert at h
+  simp only at h
+  split at h
+  · exact quotient_insert_full_unchanged t t' _ _ h
+  · cases h
 
 end Pds.Props.C12
